@@ -233,12 +233,18 @@ def launchFailure (env : Env) (w : World) : World :=
   | none => w
   | some cfg => { w with disk := secLaunchFailure env cfg w.disk }
 
+/-- The event handed to a spawned thread, as a network action. -/
+def evList (e : Option Event) : List NetAct :=
+  match e with
+  | some e => [.event e]
+  | none => []
+
 def launchSuccess (env : Env) (w : World) : World × List NetAct :=
   match w.config with
   | none => (w, [])
   | some cfg =>
     let r := secLaunchSuccess env cfg w.disk
-    ({ w with disk := r.1 }, match r.2 with | some e => [.event e] | none => [])
+    ({ w with disk := r.1 }, evList r.2)
 
 def withChannel (cfg : Config) (chan : Option String) : Config :=
   match chan with
